@@ -675,11 +675,9 @@ structure Core where
   text : Option Text
   deriving DecidableEq, Repr
 
-/-- `none` for a merged placeholder; an empty cell without a record reads like a stored empty
-    record without ids. -/
+/-- `none` for a merged placeholder. -/
 def coreL : LCell → Option Core
   | .merged => none
-  | .empty => some ⟨.empty, none, none, none, {}, none⟩
   | .stored d t => some ⟨d.kind, d.d128, d.double, d.seconds, d.ids, t⟩
 
 theorem coreL_forgetKey (l : LCell) : coreL (forgetKey l) = coreL l := by
